@@ -115,8 +115,9 @@ class PSWork(O.Monitor):
     name = "pswork"
     P = "C19"
 
-    def __init__(self, spec):
+    def __init__(self, spec, tol=1e-9):
         self.spec = spec
+        self.tol = tol          # absolute slack on received work (runs at very large clock values: one ulp of the clock is not negligible)
 
     def start(self, Q):
         self.nodes = [nd for nd in Q.transitive_nodes if O.is_ps(nd)]
@@ -166,7 +167,7 @@ class PSWork(O.Monitor):
                 still = key in now_sh and now_sh[key].service_start_date == w[1]
                 if still:
                     r = self.req.get((ind.id_number, nid, w[1]))
-                    if r is not None and w[2] > r + 1e-9 * max(1.0, r) + 1e-9:
+                    if r is not None and w[2] > r + 1e-9 * max(1.0, r) + self.tol:
                         rep("customer-leaves-when-received-work-equals-requirement", {"node": nid, "customer": ind.id_number, "received": w[2],
                                                                                        "requirement": r, "still_present_at": O._num(t)})
                         del self.work[key]
@@ -174,7 +175,7 @@ class PSWork(O.Monitor):
                 r = self.req.get((ind.id_number, nid, w[1]))
                 if r is not None:
                     self.activity["ps_departures_checked"] += 1
-                    if abs(w[2] - r) > 1e-9 * max(1.0, r) + 1e-9:
+                    if abs(w[2] - r) > 1e-9 * max(1.0, r) + self.tol:
                         rep("received-work-equals-requirement-at-departure", {"node": nid, "customer": ind.id_number, "received": w[2],
                                                                               "requirement": r, "left_at": O._num(t), "started": O._num(w[1])})
                 del self.work[key]
@@ -319,6 +320,22 @@ def huge_ps_case(draw):
             "plan": {"kind": "max_time", "T": [draw(st.sampled_from([3.25, 4.25, 5.25]))]}, "seed": draw(st.integers(0, 99)), "event_budget": 400}
 
 
+@st.composite
+def late_clock_case(draw):
+    """PS node whose whole activity happens at a very large clock value (a simulation that has been running for a long time): inter-event gaps of
+    order 1 next to clock values of order 1e6-1e9, where anything computed relative to the clock is coarse."""
+    B0 = draw(st.sampled_from([2.0 ** 20, 2.0 ** 26, 2.0 ** 30]))
+    g = [0.25, 0.5, 0.75, 1.0, 1.5]
+    classes = []
+    for ci in range(draw(st.integers(1, 2))):
+        arr = [B0 + draw(st.sampled_from(g))] + [draw(st.sampled_from(g)) for _ in range(draw(st.integers(4, 9)))] + ["inf"]
+        classes.append({"name": "C%d" % ci, "priority": 0, "arrival": [["seq", arr]],
+                        "service": [draw(st.sampled_from([["seq", [draw(st.sampled_from([0.5, 1.0, 1.0004, 1.5, 2.0, 3.0])) for _ in range(4)]], ["uni", 0.5, 3.0], ["exp", 0.8]]))],
+                        "batch": [["det", draw(st.sampled_from([1, 1, 2]))]], "routing": {"kind": "matrix", "rows": [[draw(st.sampled_from([0.0, 0.0, 0.25]))]]}})
+    node = {"cap": "inf", "ps": True, "ps_threshold": draw(st.integers(1, 2)), "servers": draw(st.sampled_from([{"kind": "inf"}, {"kind": "int", "c": 2}, {"kind": "int", "c": 3}]))}
+    return {"classes": classes, "nodes": [node], "plan": {"kind": "max_time", "T": [B0 + 40.0]}, "seed": draw(st.integers(0, 999)), "event_budget": 600, "late_clock": B0}
+
+
 def subchecks(tier):
     w = {"ps": 1.0, "inf": 0.2, "priorities": 0.25, "batching": 0.3, "routing_objects": 0.3, "self_loops": 0.4, "cc_after": 0.2,
          "process_routing": 0.2, "discipline": 0.1}
@@ -337,6 +354,12 @@ def subchecks(tier):
                         classes=lambda a, spec, res: [k for k in ("ties_at_ps", "capacity_bound_waiting") if a.get(k)], log=True, strategy=huge_ps_case(),
                         n={"quick": 48, "thorough": 400},
                         rule="one PS node with a sharing capacity of 250-300 that fills up (batches of 90-160): at most `capacity` customers share, the others wait; same work monitor"),
+        system_subcheck("late_clock", None, lambda spec: [PSWork(spec, tol=60 * 2.3e-16 * spec["late_clock"] + 1e-9)],
+                        lambda a, spec, res: a.get("ps_departures_checked", 0) >= 5 and a.get("max_sharing", 0) >= 2,
+                        classes=lambda a, spec, res: ["clock_2^%d" % {2.0 ** 20: 20, 2.0 ** 26: 26, 2.0 ** 30: 30}[spec["late_clock"]]], log=True, strategy=late_clock_case(),
+                        n={"quick": 1600, "thorough": 8000},
+                        rule="the whole activity of a PS node at clock values of 2^20 .. 2^30 (gaps of order 1): received work == requirement within a slack of 60 ulps "
+                             "of the clock; same work monitor"),
         system_subcheck("fluid", prof, lambda spec: [PSMonitor(spec)], nontrivial, classes=classes, log=True,
                         n={"quick": 7200, "thorough": 40000}, rule="records at PS nodes vs exact-rational fluid model; sharing monitor"),
         SubCheck("busy_periods", busy_execute, strategy=busy_case(), n={"quick": 4800, "thorough": 20000}, kind="metamorphic", is_spec=False,
